@@ -17,10 +17,10 @@ import os
 
 import vlib
 
-CONST_ORDER = ["Caps", "NSmall", "PortClasses", "DhcpCodes", "MaxOpts", "ReqCodes", "MaxReq", "DhcpCaps", "BigCode", "BigLens", "IdClasses", "NICs", "Parts"]
+CONST_ORDER = ["Caps", "NSmall", "PortClasses", "DhcpCodes", "MaxOpts", "ReqCodes", "MaxReq", "DhcpCaps", "BigCode", "BigLens", "IdClasses", "WriteFailures", "NICs", "Parts"]
 
 BASE = {"Caps": "{42}", "NSmall": "{0}", "PortClasses": '{"plain"}', "DhcpCodes": "{1}", "MaxOpts": "1",
-        "ReqCodes": "{1}", "MaxReq": "1", "DhcpCaps": "{300}", "BigCode": "43", "BigLens": "{0}", "IdClasses": '{"rand"}', "NICs": '{"nicA"}', "Parts": "{}"}
+        "ReqCodes": "{1}", "MaxReq": "1", "DhcpCaps": "{300}", "BigCode": "43", "BigLens": "{0}", "IdClasses": '{"rand"}', "WriteFailures": '{"none"}', "NICs": '{"nicA"}', "Parts": "{}"}
 
 
 def cfg(consts):
